@@ -291,7 +291,7 @@ fn structured(ctx: &mut Ctx, rng: &mut Rng, rounds: usize) {
     }
     // small parsers
     let junk = [
-        "", " ", "sha-256", "SHA-256", "sha-256 ", "sha-1", "\u{0}", "a: !sd b", "!sd a: 1", "? !sd a\n: 1", "- !sd 1", "- !sd [1]", "!sd", "a: &x 1\nb: *x", "a: *x",
+        "", " ", "sha-256", "SHA-256", "sha-256 ", "sha-1", "sha-0256", "sha-+256", "sha-99999999999999999999", "sha--256", "sha-", "sha-٢٥٦", "\u{0}", "a: !sd b", "!sd a: 1", "? !sd a\n: 1", "- !sd 1", "- !sd [1]", "!sd", "a: &x 1\nb: *x", "a: *x",
         "{", "[", "a:\n\t- b", "!!binary x", "%YAML 9.9", "a: !sd", "? [a]\n: 1", "? !sd [a]\n: 1", "1: 2", "null: 1", "~: 1", "a: 1\na: 2", "- - - - !sd x",
         "-----BEGIN PUBLIC KEY-----\nAAAA\n-----END PUBLIC KEY-----\n", "-----BEGIN RSA PUBLIC KEY-----\n\n-----END RSA PUBLIC KEY-----", "-----BEGIN PUBLIC KEY-----",
         "{}", "{\"kty\":1}", "{\"kty\":\"RSA\"}", "{\"kty\":\"RSA\",\"n\":\"AQAB\",\"e\":\"AQAB\"}", "{\"kty\":\"RSA\",\"n\":\"\",\"e\":\"\"}", "{\"kty\":\"RSA\",\"n\":\"AA\",\"e\":\"AA\"}",
